@@ -62,6 +62,29 @@ class AbstractOnlineResetVisitor(AbstractAstVisitor):
 class AbstractOnlineUpdateVisitor(AbstractAstVisitor):
     def __init__(self):
         self.results = dict()
+        self.visited = dict()
+
+    def visitAst(self, ast, *args, **kwargs):
+        # The stateful online operators are shared by node name (online_operator_dict),
+        # hence every sub-formula must be evaluated exactly once per update, even if
+        # it occurs several times in the specification (textual duplicates, references
+        # to sub-specifications).
+        self.visited = dict()
+        return super(AbstractOnlineUpdateVisitor, self).visitAst(ast, *args, **kwargs)
+
+    def visit(self, node, *args, **kwargs):
+        if node.name in self.visited:
+            self.recordResults(node)
+            return self.visited[node.name]
+        sample_return = super(AbstractOnlineUpdateVisitor, self).visit(node, *args, **kwargs)
+        self.visited[node.name] = sample_return
+        return sample_return
+
+    def recordResults(self, node):
+        # a repeated sub-formula is not evaluated again: its nodes take the results of the first occurrence
+        self.results[node] = self.visited[node.name]
+        for child in node.children:
+            self.recordResults(child)
 
     def visitSpec(self, node, online_operator_dict, var_object_dict):
         sample_return = self.visit(node, online_operator_dict, var_object_dict)
